@@ -40,6 +40,8 @@ structure Job where
   /-- number of `get_next` calls so far / indices of the calls that raise -/
   calls : Nat := 0
   trigFail : List Nat := []
+  /-- every `get_next` call with index ≥ this raises (a permanent failure such as a missing location) -/
+  trigFailFrom : Nat := 1000000000
 deriving Repr, Inhabited
 
 inductive Ev
@@ -153,7 +155,7 @@ def updateNext (s : St) (j : Nat) : R :=
     -- the first query anchors an interval without start; the test double counts its calls
     let p := p.anchorAt s.now
     let s := s.setJob j { b with kind := .recurring p, calls := b.calls + 1 }
-    if b.trigFail.contains b.calls then (s, some .triggerFailed) else
+    if b.trigFail.contains b.calls || decide (b.trigFailFrom ≤ b.calls) then (s, some .triggerFailed) else
     match getNext s.env p s.now with
     | .error e => (s, some e)
     | .ok n => setNextRun s j (some n)
@@ -220,7 +222,7 @@ deriving Repr
 
 inductive Op
   /-- `JobBuilder.once/countdown/at` with job handle `j`, optional store key, failure injection -/
-  | create (j : Nat) (key : Option Nat) (spec : JobSpec) (execFail trigFail : List Nat)
+  | create (j : Nat) (key : Option Nat) (spec : JobSpec) (execFail trigFail : List Nat) (trigFailFrom : Nat := 1000000000)
   | cancel (j : Nat)
   | pause (j : Nat)      -- DateTimeJobControl.pause
   | resume (j : Nat)     -- DateTimeJobControl.resume
@@ -261,8 +263,8 @@ def JobSpec.secs : JobSpec → Int
   | _ => 0
 
 /-- the freshly constructed job object, already marked as linked (`self._scheduler = scheduler`) -/
-def newJob (key : Option Nat) (spec : JobSpec) (execFail trigFail : List Nat) : Job :=
-  { kind := spec.kind, secs := spec.secs, execFail := execFail, trigFail := trigFail, linked := true,
+def newJob (key : Option Nat) (spec : JobSpec) (execFail trigFail : List Nat) (trigFailFrom : Nat := 1000000000) : Job :=
+  { kind := spec.kind, secs := spec.secs, execFail := execFail, trigFail := trigFail, trigFailFrom := trigFailFrom, linked := true,
     key := key.getD 0, inStore := key.isSome }
 
 /-- `InMemoryStore.add_job` -/
@@ -282,13 +284,14 @@ def linkJob (s : St) (j : Nat) : R :=
   | (s', some e) => ((jobFinish setT s' j).1, some e)
 
 /-- `JobBuilder.once/countdown/at`: argument validation, job construction and `_add_job` -/
-def createJob (s : St) (j : Nat) (key : Option Nat) (spec : JobSpec) (execFail trigFail : List Nat) : R :=
+def createJob (s : St) (j : Nat) (key : Option Nat) (spec : JobSpec) (execFail trigFail : List Nat)
+    (trigFailFrom : Nat := 1000000000) : R :=
   -- the handle `j` stands for the new Python object: it must not be in use
   if (s.job j).status ≠ .created then (s, some .valueError) else
   if spec.bad then (s, some .valueError) else
   -- job store first: a refused job is never linked
   if s.dupKey key then (s, some .keyError) else
-  linkJob ((storeAdd s key j).setJob j (newJob key spec execFail trigFail)) j
+  linkJob ((storeAdd s key j).setJob j (newJob key spec execFail trigFail trigFailFrom)) j
 
 /-- fire the loop timer if it is due -/
 def fireDue (s : St) : St :=
@@ -317,7 +320,7 @@ def isCountdown (b : Job) : Bool := match b.kind with | .countdown => true | _ =
 def step (s : St) (op : Op) : R :=
   let setT := setTimer OPFUEL
   match op with
-  | .create j key spec ef tf => createJob s j key spec ef tf
+  | .create j key spec ef tf tff => createJob s j key spec ef tf tff
   | .cancel j => jobFinish setT s j
   | .pause j =>
     if !isRecurring (s.job j) then (s, some .notImplemented) else
